@@ -10,13 +10,13 @@ Record Num := mkNum {
   n0 : T; n1 : T;
   nadd : T -> T -> T; nsub : T -> T -> T; nmul : T -> T -> T; ndiv : T -> T -> T;
   nleb : T -> T -> bool; neqb : T -> T -> bool;
-  nsqrt : T -> T; nexp : T -> T;
+  nsqrt : T -> T; nexp : T -> T; npi : T;
   nofZ : Z -> T }.
 
 Arguments n0 {_}. Arguments n1 {_}.
 Arguments nadd {_}. Arguments nsub {_}. Arguments nmul {_}. Arguments ndiv {_}.
 Arguments nleb {_}. Arguments neqb {_}. Arguments nsqrt {_}. Arguments nexp {_}.
-Arguments nofZ {_}.
+Arguments nofZ {_}. Arguments npi {_}.
 
 Section Derived.
   Context {N : Num}.
@@ -39,4 +39,32 @@ Definition QN : Num := {|
   nleb := Qle_bool; neqb := Qeq_bool;
   nsqrt := fun a => a;   (* no sqrt / exp at QN: kernels that need them run at FX only *)
   nexp := fun a => a;
+  npi := 884279719003555 # 281474976710656;   (* the binary64 value of np.pi *)
   nofZ := fun z => inject_Z z |}.
+
+(* ---- fixed point Z / 2^80, truncating: executes the sqrt / exp kernels for
+   the tolerance-regime correspondence.  No theorem mentions FX. ---- *)
+Definition fxs : Z := Z.pow 2 80.
+Definition fx_mul (a b : Z) : Z := Z.div (a * b) fxs.
+Definition fx_div (a b : Z) : Z := Z.div (a * fxs) b.
+Definition fx_sqrt (a : Z) : Z := Z.sqrt (a * fxs).
+(* exp by range reduction (divide by 2^10), 18 Taylor terms, 10 squarings;
+   arguments below -200 underflow to 0 *)
+Fixpoint fx_taylor (n : nat) (i : Z) (term acc a : Z) : Z :=
+  match n with
+  | O => acc
+  | S n' => let term' := Z.div (fx_mul term a) i in fx_taylor n' (i + 1) term' (acc + term') a
+  end.
+Fixpoint fx_sqr (n : nat) (a : Z) : Z := match n with O => a | S n' => fx_sqr n' (fx_mul a a) end.
+Definition fx_exp (a : Z) : Z :=
+  if Z.ltb a (-200 * fxs) then 0
+  else let a' := Z.div a 1024 in fx_sqr 10 (fx_taylor 18 1 fxs fxs a').
+Definition FX : Num := {|
+  T := Z; n0 := 0%Z; n1 := fxs;
+  nadd := Z.add; nsub := Z.sub; nmul := fx_mul; ndiv := fx_div;
+  nleb := Z.leb; neqb := Z.eqb;
+  nsqrt := fx_sqrt; nexp := fx_exp;
+  npi := Z.div (884279719003555 * fxs) 281474976710656;
+  nofZ := fun z => (z * fxs)%Z |}.
+Definition fx_of_Q (q : Q) : Z := Z.div (Qnum q * fxs) (Zpos (Qden q)).
+Definition fx_to_Q (z : Z) : Q := Qred (z # (Z.to_pos fxs)).
